@@ -121,6 +121,9 @@ enum Stz {
     ReadDirect { query: String, name: String },
     /// reader through a list capture `@ys` and `for`
     ReadList { query: String, name: String },
+    /// the same, preceded by `let vs = [ y.NAME for y in @ys ]` (and a set comprehension): the
+    /// element variable of a comprehension is a single node and can be a scope
+    ReadListComp { query: String, name: String },
     /// reader through a link: `got = @c.LINK.NAME`
     ReadChain { query: String, link: String, name: String },
 }
@@ -313,6 +316,25 @@ fn gen_schema(r: &mut Rng, lazy: bool) -> Schema {
                     .collect();
                 s.stanzas.extend(again);
             }
+            // strict only: the containers' variables are mutable, and the root's is re-assigned
+            // between two rounds of (inherited) reads from the same nodes
+            if !lazy && r.chance(1, 3) {
+                for z in s.stanzas.iter_mut() {
+                    if let Stz::DefTag { name: n, mutable, .. } = z {
+                        if *n == name {
+                            *mutable = true;
+                        }
+                    }
+                }
+                let again: Vec<Stz> = s
+                    .stanzas
+                    .iter()
+                    .filter(|z| matches!(z, Stz::ReadDirect { name: n, .. } | Stz::ReadList { name: n, .. } if *n == name))
+                    .cloned()
+                    .collect();
+                s.stanzas.push(Stz::Mutate { query: "(module) @y".into(), name: name.clone() });
+                s.stanzas.extend(again);
+            }
         }
         2 => {
             // all nodes of several kinds tagged via one wildcard-free definer each; readers on the same kinds
@@ -386,6 +408,14 @@ fn gen_schema(r: &mut Rng, lazy: bool) -> Schema {
             }
         }
     }
+    // a third of the list readers also read through list and set comprehensions
+    for z in s.stanzas.iter_mut() {
+        if let Stz::ReadList { query, name } = z {
+            if r.chance(1, 3) {
+                *z = Stz::ReadListComp { query: query.clone(), name: name.clone() };
+            }
+        }
+    }
     s
 }
 
@@ -455,6 +485,15 @@ fn render(s: &Schema, order: &[usize]) -> String {
             Stz::ReadList { query, name } => out.push_str(&format!(
                 "{}\n{{\n  for y in @ys {{\n    node n\n    attr (n) rd = \"{}\", self = {}, got = y.{}\n  }}\n}}\n\n",
                 query,
+                idx,
+                tag_expr("y"),
+                name
+            )),
+            Stz::ReadListComp { query, name } => out.push_str(&format!(
+                "{}\n{{\n  let vs = [ y.{} for y in @ys ]\n  let ws = {{ y.{} for y in @ys }}\n  for y in @ys {{\n    node n\n    attr (n) rd = \"{}\", self = {}, got = y.{}\n  }}\n}}\n\n",
+                query,
+                name,
+                name,
                 idx,
                 tag_expr("y"),
                 name
@@ -756,7 +795,7 @@ fn model(s: &Schema, order: &[usize], lazy: bool, tree: &Tree, source: &str) -> 
                         }
                     }
                 }
-                Stz::ReadDirect { .. } | Stz::ReadList { .. } | Stz::ReadChain { .. } if do_reads => {
+                Stz::ReadDirect { .. } | Stz::ReadList { .. } | Stz::ReadListComp { .. } | Stz::ReadChain { .. } if do_reads => {
                     let lookup = |name: &str, n: &Node, inherited_hits: &mut usize| -> Option<String> {
                         let map = tags.get(name)?;
                         if let Some(t) = map.get(&n.id()) {
@@ -788,7 +827,7 @@ fn model(s: &Schema, order: &[usize], lazy: bool, tree: &Tree, source: &str) -> 
                                 }
                             }
                         }
-                        Stz::ReadList { query, name } => {
+                        Stz::ReadList { query, name } | Stz::ReadListComp { query, name } => {
                             for m in matches(query, "ys", tree, source)? {
                                 for n in m {
                                     e.reads += 1;
@@ -868,6 +907,7 @@ fn schema_to_json(s: &Schema) -> J {
             Stz::DefInLoop { query, name } => json!({"k": "defloop", "query": query, "name": name}),
             Stz::ReadDirect { query, name } => json!({"k": "read", "query": query, "name": name}),
             Stz::ReadList { query, name } => json!({"k": "readlist", "query": query, "name": name}),
+            Stz::ReadListComp { query, name } => json!({"k": "readlistcomp", "query": query, "name": name}),
             Stz::ReadChain { query, link, name } => {
                 json!({"k": "readchain", "query": query, "link": link, "name": name})
             }
@@ -900,6 +940,7 @@ fn schema_from_json(j: &J) -> Schema {
                         "defloop" => Stz::DefInLoop { query: g(x, "query"), name: g(x, "name") },
                         "read" => Stz::ReadDirect { query: g(x, "query"), name: g(x, "name") },
                         "readlist" => Stz::ReadList { query: g(x, "query"), name: g(x, "name") },
+                        "readlistcomp" => Stz::ReadListComp { query: g(x, "query"), name: g(x, "name") },
                         _ => Stz::ReadChain { query: g(x, "query"), link: g(x, "link"), name: g(x, "name") },
                     })
                     .collect()
